@@ -13,8 +13,9 @@ import sys
 import time
 import traceback
 
-if os.environ.get("PYTHONHASHSEED") != "0":  # deterministic verification conditions
-    os.environ["PYTHONHASHSEED"] = "0"
+if os.environ.get("PYTHONHASHSEED") != "0" or os.environ.get("OMP_NUM_THREADS") != "1":
+    os.environ["PYTHONHASHSEED"] = "0"  # deterministic verification conditions
+    os.environ["OMP_NUM_THREADS"] = "1"  # no OpenMP pool: forked workers that call xgboost would deadlock on it
     os.execv(sys.executable, [sys.executable] + sys.argv)
 HERE = os.path.dirname(os.path.abspath(__file__))
 ROOT = os.path.dirname(HERE)
